@@ -392,6 +392,12 @@ impl Sender {
         self.fdt.allocate_toi()
     }
 
+    /// Number of TOIs currently reserved in the allocator (verification hook)
+    #[cfg(feature = "ypo_flute_verif")]
+    pub fn verif_toi_reserved_count(&self) -> usize {
+        self.fdt.verif_toi_reserved_count()
+    }
+
     /// Convert current FDT to XML
     pub fn fdt_xml_data(&self, now: SystemTime) -> Result<Vec<u8>> {
         self.fdt.to_xml(now)
